@@ -45,7 +45,7 @@ func init() {
 			}
 			return 4
 		},
-		Rule: "each case = 1000 random 21-byte addresses (String/SetStringStrict/Bytes/SetBytes/RLP/JSON round trips, every decoder also into receivers that held an account or contract address before) + 1000 candidate strings derived from canonical strings by one mutation class (upper/mixed case, 0x/no prefix, length ±1, whitespace, non-hex, unicode look-alike, wrong prefix, embedded newline) or random; strict parser must accept iff the harness regexp \\A(hx|cx)[0-9a-f]{40}\\z matches; jsonrpc validators must agree. Non-trivial = distinct candidate string that is NOT canonical (reject side) or distinct address (accept side).",
+		Rule:          "each case = 1000 random 21-byte addresses (String/SetStringStrict/Bytes/SetBytes/RLP/JSON round trips, every decoder also into receivers that held an account or contract address before) + 1000 candidate strings derived from canonical strings by one mutation class (upper/mixed case, 0x/no prefix, length ±1, whitespace, non-hex, unicode look-alike, wrong prefix, embedded newline) or random; strict parser must accept iff the harness regexp \\A(hx|cx)[0-9a-f]{40}\\z matches; jsonrpc validators must agree. Non-trivial = distinct candidate string that is NOT canonical (reject side) or distinct address (accept side).",
 		MinNonTrivial: func(t string) int { return 10000 },
 		Required:      []string{"strict_accept", "strict_reject", "setbytes_reject", "rpc_checked", "reused_receiver_checks"},
 		Assumptions:   []string{"Go regexp and encoding/hex are the reference for 'canonical'"},
@@ -55,7 +55,7 @@ func init() {
 			}
 			return 600
 		},
-		Run:           run,
+		Run: run,
 	})
 }
 
